@@ -133,6 +133,14 @@ def _collapse_postconditions(
     return base_postconditions + postconditions
 
 
+# Contract checkers whose contracts have been already collapsed with the contracts of the bases of a class.
+#
+# Such a checker belongs to that class. If the same checker shows up in the namespace of another class
+# (*e.g.*, ``some_func = SomeUnrelatedClass.some_func`` or ``some_func = some_decorator(SomeBase.some_func)``), it must
+# be left as-is, lest we change the contracts of the class to which it belongs.
+_CHECKERS_OF_CLASSES = weakref.WeakSet()  # type: ignore
+
+
 def _decorate_namespace_function(
     bases: List[type], namespace: MutableMapping[str, Any], key: str
 ) -> None:
@@ -155,6 +163,10 @@ def _decorate_namespace_function(
 
     contract_checker = icontract._checkers.find_checker(func=func)
     if contract_checker is not None:
+        if contract_checker in _CHECKERS_OF_CLASSES:
+            # The checker belongs to another class, see the comment at ``_CHECKERS_OF_CLASSES``.
+            return
+
         preconditions = contract_checker.__preconditions__  # type: ignore
         snapshots = contract_checker.__postcondition_snapshots__  # type: ignore
         postconditions = contract_checker.__postconditions__  # type: ignore
@@ -224,6 +236,9 @@ def _decorate_namespace_function(
         contract_checker.__preconditions__ = preconditions  # type: ignore
         contract_checker.__postcondition_snapshots__ = snapshots  # type: ignore
         contract_checker.__postconditions__ = postconditions  # type: ignore
+
+    if contract_checker is not None:
+        _CHECKERS_OF_CLASSES.add(contract_checker)
 
 
 def _is_accessor_defined_in_bases(bases: List[type], func: Callable[..., Any]) -> bool:
@@ -311,6 +326,10 @@ def _decorate_namespace_property(
 
         contract_checker = icontract._checkers.find_checker(func=func)
         if contract_checker is not None:
+            if contract_checker in _CHECKERS_OF_CLASSES:
+                # The checker belongs to another class, see the comment at ``_CHECKERS_OF_CLASSES``.
+                continue
+
             preconditions = contract_checker.__preconditions__  # type: ignore
             snapshots = contract_checker.__postcondition_snapshots__  # type: ignore
             postconditions = contract_checker.__postconditions__  # type: ignore
@@ -350,6 +369,9 @@ def _decorate_namespace_property(
             contract_checker.__preconditions__ = preconditions  # type: ignore
             contract_checker.__postcondition_snapshots__ = snapshots  # type: ignore
             contract_checker.__postconditions__ = postconditions  # type: ignore
+
+        if contract_checker is not None:
+            _CHECKERS_OF_CLASSES.add(contract_checker)
 
     if fget != value.fget or fset != value.fset or fdel != value.fdel:
         namespace[key] = property(fget=fget, fset=fset, fdel=fdel)
